@@ -133,6 +133,13 @@ func Holders() []Holder {
 				P(J{"operationId": "getQ" + strconv.Itoa(slot)}, "paths", pt, "get"), P(J{"description": "ok"}, "paths", pt, "get", "responses", "200"),
 				P(J{"operationId": "postQ" + strconv.Itoa(slot)}, "paths", pt, "post"), P(J{"description": "ok"}, "paths", pt, "post", "responses", "200"))
 		}},
+		{Label: "pathBodyThreeOps", Put: func(b *BundleSpec, slot int, s J) {
+			pt := "/q3" + strconv.Itoa(slot) + "/{id}"
+			b.Add(RootFile, P(J{"parameters": []any{J{"name": "body", "in": "body", "schema": s}}}, "paths", pt))
+			for _, m := range []string{"get", "put", "delete"} {
+				b.Add(RootFile, P(J{"operationId": m + "Q3" + strconv.Itoa(slot)}, "paths", pt, m), P(J{"description": "ok"}, "paths", pt, m, "responses", "200"))
+			}
+		}},
 		{Label: "sharedBody", Put: func(b *BundleSpec, slot int, s J) {
 			n := "bp" + strconv.Itoa(slot)
 			m := "delete"
@@ -215,6 +222,20 @@ func Contents(names []string) []Content {
 	})
 	add("allOf", "inline-complex", func(b *BundleSpec, s int) J {
 		return J{"allOf": []any{simpleObj("a1"), J{"type": "object", "properties": J{"extra": J{"type": "boolean"}}}}}
+	})
+	// three of a kind: the third member / element / property (a slip that is right for the first two)
+	add("tupleOfThree", "inline-complex", func(b *BundleSpec, s int) J {
+		return J{"type": "array", "items": []any{simpleObj("t3a"), J{"type": "string"}, simpleObj("t3c")}, "additionalItems": simpleObj("t3x")}
+	})
+	add("allOfOfThree", "inline-complex", func(b *BundleSpec, s int) J {
+		b.Add(RootFile, P(simpleObj("a3base"), "definitions", "a3base"))
+		return J{"allOf": []any{LocalRef("a3base"), simpleObj("a3b"), J{"type": "object", "properties": J{"third": simpleObj("a3c")}}}}
+	})
+	add("threeComplexProperties", "inline-complex", func(b *BundleSpec, s int) J {
+		return J{"type": "object", "properties": J{"one": simpleObj("p3a"), "two": J{"type": "array", "items": simpleObj("p3b")}, "three": J{"type": "object", "additionalProperties": simpleObj("p3c")}}}
+	})
+	add("nestedArrays3", "inline-deep", func(b *BundleSpec, s int) J {
+		return J{"type": "array", "items": J{"type": "array", "items": J{"type": "array", "items": simpleObj("deep3")}}}
 	})
 	// compositions of keywords: complex by one keyword, map/array-like by another
 	add("allOfWithAdditionalProperties", "inline-complex", func(b *BundleSpec, s int) J {
